@@ -72,10 +72,36 @@ type verifCacheObs struct {
 	NTimers int      `json:"ntimers"` // size of the wheel's timer index
 }
 
+// odd keys of the cache stream behind plain aliases
+var verifCacheOdd = map[string]string{"k90": "", "k91": strings.Repeat("long-key-", 300), "k92": "a\x00b", "k93": "ключ-鍵-🔑"}
+
+func verifCacheKey(k string) string {
+	if v, ok := verifCacheOdd[k]; ok {
+		return v
+	}
+	return k
+}
+
+func verifCacheAlias(k string) string {
+	for a, v := range verifCacheOdd {
+		if v == k {
+			return a
+		}
+	}
+	return k
+}
+
 func verifCache(raw json.RawMessage) any {
 	var c verifCacheCase
 	if err := json.Unmarshal(raw, &c); err != nil {
 		return map[string]any{"error": err.Error()}
+	}
+	names := map[string]bool{} // the keys the case mentions (odd ones by their real spelling)
+	for i := range c.Calls {
+		if c.Calls[i].Key != "" {
+			c.Calls[i].Key = verifCacheKey(c.Calls[i].Key)
+			names[c.Calls[i].Key] = true
+		}
 	}
 	interval := time.Second
 	if c.Interval > 0 {
@@ -121,11 +147,7 @@ func verifCache(raw json.RawMessage) any {
 		settle("phase tick did not settle")
 		barrier()
 	}
-	names := map[string]bool{}
 	for _, call := range c.Calls {
-		if call.Key != "" {
-			names[call.Key] = true
-		}
 		if call.Op == "fill" {
 			for i := 0; i < call.N; i++ {
 				names["k"+strconv.Itoa(call.From+i)] = true
@@ -146,7 +168,7 @@ func verifCache(raw json.RawMessage) any {
 		nkeys = len(cache.data)
 		for k := range cache.data {
 			if listed(k) {
-				out = append(out, k)
+				out = append(out, verifCacheAlias(k))
 			}
 		}
 		cache.lock.Unlock()
@@ -160,7 +182,7 @@ func verifCache(raw json.RawMessage) any {
 				continue
 			}
 			if _, ok := wheel.timers.Get(k); ok {
-				out = append(out, k)
+				out = append(out, verifCacheAlias(k))
 			}
 		}
 		sort.Strings(out)
